@@ -202,6 +202,9 @@ def random_conv(rng: PlanRng, meta):
     op["prefix"] = rng.choice(list(PREFIX))
     op["ru"] = rng.choice([None, None, True, False])
     op["qroute"] = rng.choice(["mul", "ureg.Quantity", "pint.Quantity"], p=[2, 1, 1])
+    # the documented irr_units= / flux_units= argument: the unit plain numbers are given in
+    # (a quantity carries its own unit and is merely converted to it first)
+    op["ua"] = rng.choice([None, None, None] + [u for u in units if u is not None])
     op["lin"] = rng.coin(0.25) and shape == "s1"
     if shape in ("s1", "s2", "s3") and rng.coin(0.15):
         # single-precision spectra (images) and wavelengths: the law in double precision of
@@ -284,7 +287,7 @@ def expected(op, pool, x=None):
     x = np.asarray(cast(pool[op["x"]], op.get("xdt")) if x is None else x).astype(float)
     wl = np.asarray(cast(pool[op["wl"]], op.get("wdt"))).astype(float)
     units = IRR_UNITS if fn == "irr2flux" else FLUX_UNITS
-    xb = x * units[op["xu"]]
+    xb = x * units[op["xu"] if op["xu"] is not None else op.get("ua")]
     wl_nm = wl * WL_UNITS[op["wu"]]
     ax = op["axis"]
     if ax is not None and xb.ndim:
@@ -313,7 +316,10 @@ def do_conv(op, pool, x=None, strip=False):
         x = quantity(x, op["xu"])
     if op["wu"] is not None:
         wl = quantity(wl, op["wu"])
-    r = fn(x, wl, return_units=op["ru"], prefix=op["prefix"], axis=op["axis"])
+    kw = {}
+    if op.get("ua") is not None:
+        kw["irr_units" if op["c"] == "irr2flux" else "flux_units"] = op["ua"]
+    r = fn(x, wl, return_units=op["ru"], prefix=op["prefix"], axis=op["axis"], **kw)
     return r
 
 
@@ -436,7 +442,9 @@ def execute_here(plan):
                        "wl": op["wl"], "xu": None, "wu": op["wu"], "prefix": None, "ru": False,
                        "axis": op["axis"], "wdt": op.get("wdt"), "qroute": op.get("qroute", "mul")}
                 back = call(do_conv, inv, pool, x=mag / PREFIX[op["prefix"]])
-                units = IRR_UNITS if op["c"] == "irr2flux" else FLUX_UNITS
+                units = dict(IRR_UNITS if op["c"] == "irr2flux" else FLUX_UNITS)
+                if op["xu"] is None:
+                    units[None] = units[op.get("ua")]     # plain numbers in the stated unit
                 if not back.ok:
                     raise Violation(ID, "conversion_raised",
                                     f"{inv['c']} of the result of {op['c']} raised {back.brief()} "
@@ -558,7 +566,8 @@ def candidates(plan):
             yield p
         if "c" in op:
             for key, simple in (("xu", None), ("wu", None), ("prefix", None), ("ru", None),
-                                ("lin", False), ("xdt", None), ("wdt", None), ("qroute", "mul")):
+                                ("lin", False), ("xdt", None), ("wdt", None), ("qroute", "mul"),
+                                ("ua", None)):
                 if op.get(key) not in (simple,):
                     p = dict(plan)
                     p["ops"] = ops[:i] + [dict(op, **{key: simple})] + ops[i + 1:]
